@@ -198,7 +198,7 @@ func runTeardown(e *kenv, k kase) (res result) {
 			d1, d1v, n1 = w.dump(), w.dumpVictim(), w.nrec()
 			continue
 		}
-		if t == "SHUTDOWN" {
+		if contains(k.Terms[1:i+1], "SHUTDOWN") {
 			// TerminateAll legitimately ends the bystander as well: only the victim's own state must be unchanged
 			if d2v := w.dumpVictim(); d2v != d1v {
 				w.add("second-termination-changes-state", site, "the victim's state after %s differs from its state after %s: %s", site, k.Terms[0], diff(d1v, d2v))
